@@ -403,7 +403,9 @@ def write_evidence(ctx, wall):
         "wall_s": round(wall, 1),
         "violations": len(ctx.violations),
     }
-    d = os.path.join(VERIF, "evidence")
+    # evidence/ is only ever written by runs against /repo itself; runs against another tree (VERIF_REPO, used to
+    # try seeded changes and the pre-fix tree) write to evidence_other/ (not committed)
+    d = os.path.join(VERIF, "evidence" if os.path.realpath(tree.REPO) == "/repo" else "evidence_other")
     os.makedirs(d, exist_ok=True)
     with open(os.path.join(d, ctx.prop + ".json"), "w") as f:
         json.dump(ev, f, indent=1)
